@@ -36,6 +36,7 @@ var progTexts = map[string]string{
 	"haltB": "if type==\"string\" then (\"bye\\n\"|halt_error(7)) else . end",
 	"dup":   ".,.", "none": "empty", "wrap": "[.]", "var": "$x",
 	"emitfailB": ".,(if type==\"string\" then error(\"x\") else empty end)",
+	"failnullB": "if type==\"string\" then error(null) else . end",
 }
 
 type unit struct{ toks []tok } // a flag with its value tokens: must stay together
@@ -112,7 +113,7 @@ func randCase(rng *rand.Rand, id int) e2eCase {
 		hasU = true
 	}
 	// program
-	prog := pick(rng, []string{"id", "id", "failB", "failB", "nocompile", "collect", "haltB", "dup", "none", "wrap", "var", "var", "emitfailB"})
+	prog := pick(rng, []string{"id", "id", "failB", "failB", "nocompile", "collect", "haltB", "dup", "none", "wrap", "var", "var", "emitfailB", "failnullB"})
 	useFile := rng.Float64() < 0.12
 	progFile := pick(rng, []string{"id.jq", "fail.jq", "id.jq", "fail.jq", "nope.jq"})
 
@@ -265,7 +266,7 @@ func randCase(rng *rand.Rand, id int) e2eCase {
 		fidx = []int{}
 	}
 	// solo runs are only needed where independence applies: a per-input program, no -n, no --slurp
-	perInput := map[string]bool{"id": true, "failB": true, "dup": true, "none": true, "wrap": true, "var": true, "emitfailB": true}
+	perInput := map[string]bool{"id": true, "failB": true, "dup": true, "none": true, "wrap": true, "var": true, "emitfailB": true, "failnullB": true}
 	solo := (useFile || perInput[prog]) && len(fidx) > 0
 	for _, b := range bools {
 		if b == "null_input" || b == "slurp" {
